@@ -303,8 +303,8 @@ package lib
 //@   ensures @C08: forall j int :: 0 <= j && j < len(result) ==> result[j] in r.decoysTimeouts && regExpired(r.decoysTimeouts[result[j]], r)
 // C08 "never kept past their lifetime": the sweep list is complete - every record that was expired when the scan began
 // is listed (the ghost clock only advances, so it is expired when the scan reaches it), however many there are.
-//@   ensures @C08: forall k string :: old(k in r.decoysTimeouts && r.decoysTimeouts[k] != nil && regExpired(r.decoysTimeouts[k], r)) ==> (exists j int :: 0 <= j && j < len(expiredRegTimeoutIndices) && expiredRegTimeoutIndices[j] == k)
-//@   ensures @C08: result == expiredRegTimeoutIndices
+//@   ensures @C08 @C02: forall k string :: old(k in r.decoysTimeouts && r.decoysTimeouts[k] != nil && regExpired(r.decoysTimeouts[k], r)) ==> (exists j int :: 0 <= j && j < len(expiredRegTimeoutIndices) && expiredRegTimeoutIndices[j] == k)
+//@   ensures @C08 @C02: result == expiredRegTimeoutIndices
 //@   ensures @C09: !held(&r.m) && rheld(&r.m) == 0
 //@ loop 1:
 //@   invariant rheld(&r.m) == 1 && !held(&r.m) && fresh(expiredRegTimeoutIndices) && now() >= old(now())
@@ -319,7 +319,7 @@ package lib
 //@   requires r != nil && !held(&r.m) && rheld(&r.m) == 0
 //@   ensures @C08: result != nil ==> !(index in r.decoysTimeouts)
 // "forgotten entirely": if the index names a tracked registration, that registration is gone afterwards
-//@   ensures @C08: old(index in r.decoysTimeouts) && old(r.decoysTimeouts[index].identifier in r.decoys[r.decoysTimeouts[index].decoy]) ==> !(index in r.decoysTimeouts) && !(old(r.decoysTimeouts[index].identifier) in r.decoys[old(r.decoysTimeouts[index].decoy)])
+//@   ensures @C08 @C02: old(index in r.decoysTimeouts) && old(r.decoysTimeouts[index].identifier in r.decoys[r.decoysTimeouts[index].decoy]) ==> !(index in r.decoysTimeouts) && !(old(r.decoysTimeouts[index].identifier) in r.decoys[old(r.decoysTimeouts[index].decoy)])
 //@   ensures @C09: !held(&r.m) && rheld(&r.m) == 0
 
 // the sweep itself: every read of the registry happens under the lock (G1 obligations)
